@@ -1909,7 +1909,10 @@ struct Sys {
     objs: Vec<Option<(ProguardMapping<'static>, &'static [u8])>>,
     handles: Vec<Option<&'static crate::handles::Handle<'static>>>,
     files: Vec<Option<&'static crate::handles::Aligned>>,
+    /// what a file is: 0 written whole, 1 left behind by a failed write / torn copy, 2 damaged copy
+    kinds: Vec<u8>,
     iters: Vec<Option<SysIter>>,
+    riters: Vec<Option<proguard::ProguardRecordIter<'static>>>,
 }
 
 enum SysIter {
@@ -1923,7 +1926,8 @@ fn leak_str(v: &Value) -> &'static str {
 
 impl Sys {
     fn new(bases: Vec<&'static [u8]>) -> Self {
-        Sys { bases, objs: (0..8).map(|_| None).collect(), handles: vec![None; 8], files: vec![None; 8], iters: (0..8).map(|_| None).collect() }
+        Sys { bases, objs: (0..8).map(|_| None).collect(), handles: vec![None; 8], files: vec![None; 8], kinds: vec![0; 8],
+              iters: (0..8).map(|_| None).collect(), riters: (0..8).map(|_| None).collect() }
     }
     fn reset(&mut self, sink: &mut Sink) {
         *self = Sys::new(self.bases.clone());
@@ -1989,6 +1993,7 @@ impl Sys {
             Ok(Ok(bytes)) => {
                 sink.emit(json!({"t": "write", "f": f + 1, "o": o + 1, "bytes": enc::bytes(&bytes)}));
                 self.files[f] = Some(Box::leak(Box::new(crate::handles::Aligned::new(&bytes))));
+                self.kinds[f] = 0;
             }
             Ok(Err(e)) => sink.emit(json!({"t": "write", "f": f + 1, "o": o + 1, "bytes": [], "error": e})),
             Err(p) => sink.emit(json!({"t": "write", "f": f + 1, "o": o + 1, "bytes": [], "panic": p})),
@@ -2007,16 +2012,90 @@ impl Sys {
             Err(p) => sink.emit(json!({"t": "writefail", "o": o + 1, "k": k, "ok": false, "panic": p})),
         }
     }
+    /// a write into a sink that fails at its k-th call: what the sink had accepted stays behind as file f
+    fn crash(&mut self, sink: &mut Sink, f: usize, o: usize, k: usize) {
+        let Some((m, _)) = &self.objs[o] else { return };
+        let mut s = crate::sink::ScriptedSink::new([vec![1 << 30; k.saturating_sub(1)], vec![-2]].concat(), 1 << 30);
+        let r = guarded(std::panic::AssertUnwindSafe(|| proguard::ProguardCache::write(m, &mut s).is_ok()));
+        if !s.any_fail {
+            return;
+        }
+        let delivered = s.data.clone();
+        self.files[f] = Some(Box::leak(Box::new(crate::handles::Aligned::new(&delivered))));
+        self.kinds[f] = 1;
+        match r {
+            Ok(ok) => sink.emit(json!({"t": "crash", "f": f + 1, "o": o + 1, "k": k, "delivered": enc::bytes(&delivered), "ok": ok})),
+            Err(p) => sink.emit(json!({"t": "crash", "f": f + 1, "o": o + 1, "k": k, "delivered": enc::bytes(&delivered), "ok": false, "panic": p})),
+        }
+    }
+    /// a torn copy: the first k bytes of a whole file
+    fn truncate(&mut self, sink: &mut Sink, f2: usize, f: usize, k: usize) {
+        let Some(buf) = self.files[f] else { return };
+        if self.kinds[f] != 0 || k >= buf.bytes().len() {
+            return;
+        }
+        self.files[f2] = Some(Box::leak(Box::new(crate::handles::Aligned::new(&buf.bytes()[..k]))));
+        self.kinds[f2] = 1;
+        sink.emit(json!({"t": "truncate", "f2": f2 + 1, "f": f + 1, "k": k}));
+    }
+    /// a damaged / foreign copy: bytes of a file replaced
+    fn overwrite(&mut self, sink: &mut Sink, f2: usize, f: usize, at: usize, bs: &[u8]) {
+        let Some(buf) = self.files[f] else { return };
+        if at + bs.len() > buf.bytes().len() {
+            return;
+        }
+        let mut b = buf.bytes().to_vec();
+        b[at..at + bs.len()].copy_from_slice(bs);
+        self.files[f2] = Some(Box::leak(Box::new(crate::handles::Aligned::new(&b))));
+        self.kinds[f2] = 2;
+        sink.emit(json!({"t": "overwrite", "f2": f2 + 1, "f": f + 1, "at": at, "bytes": enc::bytes(bs)}));
+    }
+    /// the standard edits of MC_System: 1 magic byte-swapped, 2 other version, 3 a record field damaged
+    fn std_edit(bytes: &[u8], e: usize) -> Option<(usize, Vec<u8>)> {
+        if bytes.len() < 24 {
+            return None;
+        }
+        match e {
+            1 => Some((0, bytes[0..4].iter().rev().cloned().collect())),
+            2 => Some((4, (u32::from_le_bytes(bytes[4..8].try_into().unwrap()).wrapping_add(1)).to_le_bytes().to_vec())),
+            _ => {
+                let nc = u32::from_le_bytes(bytes[8..12].try_into().unwrap()) as usize;
+                let nm = u32::from_le_bytes(bytes[12..16].try_into().unwrap()) as usize;
+                let members_at = (24 + nc * 28 + 7) / 8 * 8;
+                if nm > 0 && members_at + 36 <= bytes.len() {
+                    Some((members_at + 4, vec![0xff, 0xff, 0xff, 0xff]))
+                } else if nc > 0 && 24 + 28 <= bytes.len() {
+                    Some((24 + 12, vec![0xf0, 0xff, 0xff, 0xff]))
+                } else {
+                    None
+                }
+            }
+        }
+    }
     fn parse(&mut self, sink: &mut Sink, h: usize, f: usize) {
         let Some(buf) = self.files[f] else { return };
-        match guarded(std::panic::AssertUnwindSafe(|| proguard::ProguardCache::parse(buf.bytes()).map_err(|e| e.to_string()))) {
+        match guarded(std::panic::AssertUnwindSafe(|| proguard::ProguardCache::parse(buf.bytes()))) {
             Ok(Ok(c)) => {
                 self.handles[h] = Some(Box::leak(Box::new(crate::handles::Handle::Cache(c))));
-                sink.emit(json!({"t": "parse", "h": h + 1, "f": f + 1}));
+                sink.emit(json!({"t": "parse", "h": h + 1, "f": f + 1, "verdict": {"ok": true, "err": ""}}));
             }
-            Ok(Err(e)) => sink.emit(json!({"t": "parse", "h": h + 1, "f": f + 1, "error": e})),
-            Err(p) => sink.emit(json!({"t": "parse", "h": h + 1, "f": f + 1, "panic": p})),
+            Ok(Err(e)) => sink.emit(json!({"t": "parse", "h": h + 1, "f": f + 1, "verdict": cache_error_json(&e)})),
+            Err(p) => sink.emit(json!({"t": "parse", "h": h + 1, "f": f + 1, "verdict": {"ok": false, "err": "panic"}, "panic": p})),
         }
+    }
+    fn rec_begin(&mut self, sink: &mut Sink, r: usize, o: usize) {
+        let Some((m, _)) = &self.objs[o] else { return };
+        self.riters[r] = Some(m.iter());
+        sink.emit(json!({"t": "recbegin", "r": r + 1, "o": o + 1}));
+    }
+    fn rec_next(&mut self, sink: &mut Sink, r: usize) {
+        let Some(it) = self.riters[r].as_mut() else { return };
+        let got = match guarded(std::panic::AssertUnwindSafe(|| it.next().map(|x| enc::record(&x)))) {
+            Ok(None) => json!([]),
+            Ok(Some(v)) => json!([v]),
+            Err(p) => json!({"panic": p}),
+        };
+        sink.emit(json!({"t": "recnext", "r": r + 1, "got": got}));
     }
     fn query(&mut self, sink: &mut Sink, h: usize, q: &Value) {
         let Some(handle) = self.handles[h] else { return };
@@ -2150,6 +2229,22 @@ fn system(sink: &mut Sink, o: &Opts) {
                     "write" => sys.write(sink, x - 1, y - 1),
                     "writefail" => sys.write_fail(sink, x - 1, y),
                     "parse" => sys.parse(sink, x - 1, y - 1),
+                    "crash" => sys.crash(sink, x - 1, y - 1, z),
+                    "truncate" => {
+                        let Some(buf) = sys.files[y - 1] else { continue };
+                        let len = buf.bytes().len();
+                        // 1: the header alone, 2: half of the file, 3: all but the last byte
+                        let k = match z { 1 => 24.min(len.saturating_sub(1)), 2 => len / 2, _ => len.saturating_sub(1) };
+                        sys.truncate(sink, x - 1, y - 1, k);
+                    }
+                    "overwrite" => {
+                        let Some(buf) = sys.files[y - 1] else { continue };
+                        if let Some((at, bs)) = Sys::std_edit(buf.bytes(), z) {
+                            sys.overwrite(sink, x - 1, y - 1, at, &bs);
+                        }
+                    }
+                    "recbegin" => sys.rec_begin(sink, x - 1, y - 1),
+                    "recnext" => sys.rec_next(sink, x - 1),
                     "q" => sys.query(sink, x - 1, &queries[(y - 1) % queries.len()]),
                     "sig" => sys.sig(sink, x - 1, "(Lb;[I)La;"),
                     "typed" => sys.typed(sink, x - 1, &levels),
@@ -2181,8 +2276,35 @@ fn system(sink: &mut Sink, o: &Opts) {
     let mut sys = Sys::new(bases);
     for _ in 0..steps {
         let (a, b, c) = (rng.below(8), rng.below(8), rng.below(8));
-        match rng.below(24) {
+        match rng.below(32) {
             0 | 1 => sys.new_mapping(sink, a, rng.below(nmaps)),
+            24 => sys.crash(sink, a, b, rng.range(1, 8)),
+            25 => {
+                if let Some(buf) = sys.files[b] {
+                    let len = buf.bytes().len();
+                    let k = match rng.below(4) { 0 => rng.below(len.max(1)), 1 => len.saturating_sub(rng.range(1, 9)), 2 => 24.min(len.saturating_sub(1)), _ => len / 2 };
+                    sys.truncate(sink, a, b, k);
+                }
+            }
+            26 => {
+                if let Some(buf) = sys.files[b] {
+                    let bytes = buf.bytes();
+                    let edit = if rng.chance(1, 2) {
+                        Sys::std_edit(bytes, rng.range(1, 3))
+                    } else if bytes.len() > 28 {
+                        // any 32-bit word behind the header -> a boundary value
+                        let at = 24 + 4 * rng.below((bytes.len() - 24) / 4);
+                        Some((at, rng.pick(&[0u32, 1, u32::MAX, u32::MAX - 1, 1 << 31, 7]).to_le_bytes().to_vec()))
+                    } else {
+                        None
+                    };
+                    if let Some((at, bs)) = edit {
+                        sys.overwrite(sink, a, b, at, &bs);
+                    }
+                }
+            }
+            27 | 28 => sys.rec_begin(sink, c, a),
+            29 | 30 | 31 => sys.rec_next(sink, c),
             2 => {
                 if let Some((_, bytes)) = sys.objs[b].clone() {
                     let lfs: Vec<usize> = std::iter::once(0).chain(bytes.iter().enumerate().filter(|(_, x)| **x == b'\n').map(|(i, _)| i + 1)).chain(std::iter::once(bytes.len())).collect();
